@@ -122,7 +122,7 @@ func TestC19Cdi(t *testing.T) {
 	rapid.Check(t, func(t *rapid.T) {
 		root := sc.dir()
 		defer os.RemoveAll(root)
-		l := layout.Generate(t, root, layout.Options{NoMissing: true, SimpleSpell: true, NoRepeat: true, MaxFiles: 3, Edits: c02Edits})
+		l := layout.Generate(t, root, layout.Options{NoMissing: true, MaxFiles: 3, Edits: c02Edits})
 		if len(l.Slots) == 0 {
 			l.Slots, l.Spelling = []int{0}, []string{l.Path(0)}
 		}
@@ -362,7 +362,19 @@ func TestC19Cdi(t *testing.T) {
 					nontriv = true
 				}
 			}
-			rec.Case(nontriv, canonJSON(c), func() any { return c }, "sub:"+sub, "clean-cache", "schema:"+schemaName, fmt.Sprintf("dirs-%d", len(dirs)))
+			repeated := false
+			seenSlot := map[int]bool{}
+			for _, sl := range l.Slots {
+				if seenSlot[sl] {
+					repeated = true
+				}
+				seenSlot[sl] = true
+			}
+			lbl := []string{"sub:" + sub, "clean-cache", "schema:" + schemaName, fmt.Sprintf("dirs-%d", len(dirs))}
+			if repeated {
+				lbl = append(lbl, "directory-repeated-on-command-line")
+			}
+			rec.Case(nontriv, canonJSON(c), func() any { return c }, lbl...)
 		}
 	})
 }
